@@ -162,7 +162,18 @@ def predicate(case, stats):
             dangling.append(ref)
     if dangling:
         fails.append({"sub": "refs", "kind": "dangling-ref", "detail": sorted(set(dangling))})
-    # 4. same meaning
+    # 4. same meaning (history: every class of the tree has already validated something - state cached on
+    #    a parent class must not leak into a subclass)
+    from statham.schema.elements.meta import ObjectMeta as _OM
+    from statham.serializers.orderer import get_children as _children
+
+    seen_cls = []
+    for root_el in elements:
+        for el in [root_el] + list(_children(root_el)):
+            if isinstance(el, _OM) and not any(el is c for c in seen_cls):
+                seen_cls.append(el)
+    for cls in sorted(seen_cls, key=lambda c: len(c.__mro__)):
+        observe.verdict(cls, {})
     primary = elements[0]
     n_ok = n_rej = 0
     if not dangling:
